@@ -113,6 +113,18 @@ def run_shard(ctx):
                 t = text[:pos] + bytes([bad]) + text[pos:]
                 _check_decode_bad(ctx, u, t, "inserted")
                 ctx.nontrivial(("ins", t))
+    # 3b. a bad octet appended after a complete encoding (every length mod 4, every non-alphabet octet except '=')
+    for ln in range(0, 13):
+        data = rng.randbytes(ln)
+        text = b64u_enc(data).encode()
+        for bad in NON_ALPHA:
+            if bad == 0x3D:
+                continue
+            if (ln * 192 + bad) % n != sh:
+                continue
+            _check_decode_bad(ctx, u, text + bytes([bad]), "appended")
+            ctx.nontrivial(("app", text, bad))
+            _check_decode_bad(ctx, u, text + b"==" [: (-len(text)) % 4] + bytes([bad]), "appended-after-padding") if len(text) % 4 in (2, 3) else None
     # 4. impossible lengths and every length mod 4
     for ln in range(1, 40):
         t = bytes(rng.choice(_ALPHA.encode()) for _ in range(ln))
